@@ -472,6 +472,11 @@ def plan_structure(ctx):
         if coll == "keytree":
             cc["tspan"] = 4
         futs += random_jobs(ctx, [coll], 1 if q else 2, cc, tag="-clearchurn")
+        # a large capacity hint (the arena starts with thousands of slots; snapshots are sampled)
+        hint = {"keys": 30, "steps": 1200 if q else 5000, "seglen": 400, "cap": 3000, "snapevery": 60}
+        if coll == "keytree":
+            hint["tspan"] = 8
+        futs += random_jobs(ctx, [coll], 1, hint, tag="-hint")
         # large trees, sampled: the snapshot is shipped with every n-th call only
         big = {"keys": 400 if q else 1500, "steps": 2500 if q else 10000, "seglen": 100000, "clears": 0, "snapevery": 125 if q else 500}
         if coll == "keytree":
